@@ -1,2 +1,283 @@
-// harness site: src/taiko/difficulty/gradual.rs
+// harness site: src/taiko/difficulty/gradual.rs — S1' (initial-state literal + bounded symbolic
+// history), DESIGN.md §4a. For taiko the relation between `idx`, the 'static iterator position and
+// `max_combo` is too intricate to state as a one-step invariant, so the struct is written as a
+// literal in the state `new()` establishes and then H symbolic calls (next / nth(n), any n) are
+// made, with the post-condition checked after every call.
+//
+// Properties: C15, C02 (max_combo and processed difficulty objects of the prefix: value v stands
+// for "v hits passed", as the one-shot path with passed_objects(v) defines it), C14 (taiko max
+// combo == hits), C11 (the lifetime-extended iterator), C05.
 #![allow(dead_code, unused_imports, clippy::all, clippy::pedantic)]
+
+use super::*;
+use crate::model::hit_object::{HitObjectKind, Spinner};
+use crate::taiko::object::HitType;
+use crate::taiko::Taiko;
+use crate::verif_harness::common::{ghost_probe, verif_replay_table};
+use rosu_map::util::Pos;
+
+use super::super::color::color_data::ColorData;
+use super::super::object::MonoIndex;
+use super::super::rhythm::rhythm_data::RhythmData;
+use super::super::skills::{color::Color, reading::Reading, rhythm::Rhythm, stamina::Stamina};
+
+static mut LOG: [usize; 16] = [0; 16];
+static mut LOG_LEN: usize = 0;
+static mut OTHER_CALLS: usize = 0;
+
+fn rec_rhythm(_s: &mut Rhythm, curr: &TaikoDifficultyObject, _o: &TaikoDifficultyObjects) {
+    unsafe {
+        if LOG_LEN < 16 {
+            LOG[LOG_LEN] = curr.idx;
+        }
+        LOG_LEN += 1;
+    }
+}
+fn rec_reading(_s: &mut Reading, _c: &TaikoDifficultyObject, _o: &TaikoDifficultyObjects) {
+    unsafe { OTHER_CALLS += 1 }
+}
+fn rec_color(_s: &mut Color, _c: &TaikoDifficultyObject, _o: &TaikoDifficultyObjects) {
+    unsafe { OTHER_CALLS += 1 }
+}
+fn rec_stamina(_s: &mut Stamina, _c: &TaikoDifficultyObject, _o: &TaikoDifficultyObjects) {
+    unsafe { OTHER_CALLS += 1 }
+}
+fn no_eval(_a: &mut TaikoDifficultyAttributes, _s: TaikoSkills, _r: bool) {
+    core::mem::forget(_s);
+}
+
+#[derive(Clone, Copy)]
+struct Call {
+    nth: bool,
+    n: usize,
+}
+
+#[derive(Clone, Copy)]
+struct Witness<const N: usize, const H: usize> {
+    is_hit: [bool; N],
+    calls: [Call; H],
+}
+
+fn any_witness<const N: usize, const H: usize>() -> Witness<N, H> {
+    let mut calls = [Call { nth: false, n: 0 }; H];
+    for c in calls.iter_mut() {
+        c.nth = kani::any();
+        c.n = kani::any();
+    }
+    Witness { is_hit: kani::any(), calls }
+}
+
+fn map_of<const N: usize, const H: usize>(w: &Witness<N, H>) -> Beatmap {
+    let mut map = Beatmap { mode: GameMode::Taiko, ..Beatmap::default() };
+    for i in 0..N {
+        map.hit_objects.push(HitObject {
+            pos: Pos::new(0.0, 0.0),
+            start_time: 500.0 * (i as f64),
+            kind: if w.is_hit[i] { HitObjectKind::Circle } else { HitObjectKind::Spinner(Spinner { duration: 100.0 }) },
+        });
+        map.hit_sounds.push(Default::default());
+    }
+    map
+}
+
+fn literal_initial_state<const N: usize, const H: usize>(w: &Witness<N, H>) -> TaikoGradualDifficulty {
+    let n_diff = if N >= 2 { N - 2 } else { 0 };
+    let mut diff_objects = TaikoDifficultyObjects {
+        objects: Vec::with_capacity(n_diff),
+        center_hit_objects: Vec::new(),
+        rim_hit_objects: Vec::new(),
+        note_objects: Vec::new(),
+    };
+    for i in 0..n_diff {
+        diff_objects.objects.push(RefCount::new(TaikoDifficultyObject {
+            idx: i,
+            delta_time: 500.0,
+            start_time: 500.0 * ((i + 2) as f64),
+            base_hit_type: if w.is_hit[i + 2] { HitType::Center } else { HitType::NonHit },
+            mono_idx: MonoIndex::None,
+            note_idx: 0,
+            rhythm_data: RhythmData::new(500.0, None),
+            color_data: ColorData::default(),
+            effective_bpm: 120.0,
+        }));
+    }
+    let first_combos = match (
+        if N > 0 { Some(w.is_hit[0]) } else { None },
+        if N > 1 { Some(w.is_hit[1]) } else { None },
+    ) {
+        (None, _) | (Some(false), Some(false) | None) => FirstTwoCombos::None,
+        (Some(true), Some(false) | None) => FirstTwoCombos::OnlyFirst,
+        (Some(false), Some(true)) => FirstTwoCombos::OnlySecond,
+        (Some(true), Some(true)) => FirstTwoCombos::Both,
+    };
+    let mut total_hits = 0;
+    for i in 0..N {
+        total_hits += usize::from(w.is_hit[i]);
+    }
+    // the module's own lifetime extension, as in `new()`
+    let diff_objects_iter = extend_lifetime(diff_objects.iter());
+    TaikoGradualDifficulty {
+        idx: 0,
+        difficulty: Difficulty::new(),
+        attrs: TaikoDifficultyAttributes::default(),
+        diff_objects,
+        diff_objects_iter,
+        skills: TaikoSkills::new(30.0, false),
+        total_hits,
+        first_combos,
+    }
+}
+
+const SKIP_NTH_BEYOND: u8 = 1;
+
+/// cumulative number of difficulty objects processed once `v` hits have been passed:
+/// everything up to the v-th hit, of which objects 0 and 1 have no difficulty object
+fn processed_after<const N: usize>(is_hit: &[bool; N], v: usize) -> usize {
+    if v == 0 {
+        return 0;
+    }
+    let mut seen = 0;
+    let mut pos = 0;
+    for i in 0..N {
+        if is_hit[i] && seen < v {
+            seen += 1;
+            pos = i;
+        }
+    }
+    if pos >= 2 { pos - 1 } else { 0 }
+}
+
+fn run_history<const N: usize, const H: usize>(g: &mut TaikoGradualDifficulty, w: &Witness<N, H>, map: Option<&Beatmap>, skip: u8) {
+    let ghost = ghost_probe();
+    let mut total = 0usize;
+    for i in 0..N {
+        total += usize::from(w.is_hit[i]);
+    }
+    let mut v = 0usize; // values produced so far == hits passed
+    assert!(g.len() == total, "C15 taiko: len() announces one value per hit");
+
+    for c in w.calls.iter() {
+        let available = total - v;
+        let n = if c.nth { c.n } else { 0 };
+        let res = if c.nth { g.nth(n) } else { g.next() };
+        if n < available {
+            v += n + 1;
+            assert!(res.is_some(), "C15 taiko: a value is produced while enough values remain");
+            let a = res.unwrap();
+            assert!(a.max_combo as usize == v, "C02 taiko: max_combo equals the number of hits passed");
+            assert!(g.idx == v, "C15 taiko: cursor advanced by n + 1");
+            assert!(g.len() == total - v, "C15 taiko: len() equals the number of values still to come");
+            let (lo, hi) = g.size_hint();
+            assert!(lo == total - v && hi == Some(lo), "C15 taiko: size_hint() agrees with len()");
+            if ghost {
+                let want = processed_after(&w.is_hit, v);
+                unsafe {
+                    assert!(LOG_LEN == want, "C02 taiko: difficulty objects processed up to the hit, once each");
+                    assert!(OTHER_CALLS == 4 * want, "C02 taiko: all five skills process the same objects");
+                    let mut j = 0;
+                    while j < want && j < 16 {
+                        assert!(LOG[j] == j, "C02 taiko: processed objects in order");
+                        j += 1;
+                    }
+                }
+            } else if let Some(map) = map {
+                let one = Difficulty::new().passed_objects(v as u32).calculate_for_mode::<Taiko>(map).unwrap();
+                assert!(one.max_combo == a.max_combo, "C02 taiko: max_combo equals one-shot passed_objects(i)");
+                assert!(one == a, "C02 taiko: value equals one-shot passed_objects(i)");
+            }
+        } else {
+            if !(skip & SKIP_NTH_BEYOND != 0 && available > 0) {
+                assert!(res.is_none(), "C15 taiko: nth(n) with fewer than n+1 values left returns None");
+            }
+            assert!(g.next().is_none(), "C15 taiko: exhausted calculator stays exhausted");
+            return;
+        }
+    }
+}
+
+/// class 0: main domain (N >= 3, first two objects are hits); 1: nth beyond the end;
+/// 2: maps of one or two objects that contain a hit; 3: a non-hit among the first two objects
+fn restrict_to_class<const N: usize, const H: usize>(w: &Witness<N, H>, class: u8) {
+    match class {
+        0 => {
+            if N >= 2 {
+                kani::assume(w.is_hit[0] && w.is_hit[1]);
+            }
+        }
+        1 => {
+            kani::assume(N >= 3 && w.is_hit[0] && w.is_hit[1]);
+            let mut total = 0usize;
+            for i in 0..N {
+                total += usize::from(w.is_hit[i]);
+            }
+            kani::assume(w.calls[0].nth && w.calls[0].n >= total);
+        }
+        2 => {
+            kani::assume(w.is_hit[0]);
+            kani::assume(!w.calls[0].nth);
+        }
+        _ => {
+            // concrete pattern [hit, non-hit, hit, ...hits]: the cheapest witness of the class
+            for i in 0..N {
+                kani::assume(w.is_hit[i] == (i != 1));
+            }
+            for c in w.calls.iter() {
+                kani::assume(!c.nth);
+            }
+        }
+    }
+}
+
+fn s1_history<const N: usize, const H: usize>(skip: u8, class: u8) {
+    let w = any_witness::<N, H>();
+    restrict_to_class(&w, class);
+    if ghost_probe() {
+        let mut g = literal_initial_state(&w);
+        run_history(&mut g, &w, None, skip);
+        let kc = class != 0;
+        kani::cover!(kc || N < 3 || (w.calls[0].nth && w.calls[0].n == 1 && !w.is_hit[N - 1]), "nth(1) first, trailing non-hit");
+        kani::cover!(kc || N < 4 || (!w.is_hit[2] && w.is_hit[3] && w.calls[0].nth && w.calls[0].n == 2), "nth(2) across a non-hit");
+        kani::cover!(kc || H < 2 || N < 3 || (w.calls[H - 1].nth && g.idx == 3), "history reaches the third hit");
+        kani::cover!(true, "end reached");
+        core::mem::forget(g);
+    } else {
+        let map = map_of(&w);
+        let mut g = TaikoGradualDifficulty::new(Difficulty::new(), &map).unwrap();
+        run_history(&mut g, &w, Some(&map), skip);
+    }
+}
+
+macro_rules! s1_proof {
+    ($name:ident, $n:literal, $h:literal, $unwind:literal) => {
+        s1_proof!($name, $n, $h, $unwind, SKIP_NTH_BEYOND, 0);
+    };
+    ($name:ident, $n:literal, $h:literal, $unwind:literal, $skip:expr, $class:literal) => {
+        #[kani::proof]
+        #[kani::unwind($unwind)]
+        #[kani::stub(<Rhythm as StrainSkill>::process, rec_rhythm)]
+        #[kani::stub(<Reading as StrainSkill>::process, rec_reading)]
+        #[kani::stub(<Color as StrainSkill>::process, rec_color)]
+        #[kani::stub(<Stamina as StrainSkill>::process, rec_stamina)]
+        #[kani::stub(crate::taiko::difficulty::DifficultyValues::eval, no_eval)]
+        #[kani::stub(crate::verif_harness::common::ghost_probe, crate::verif_harness::common::ghost_probe_on)]
+        pub fn $name() {
+            s1_history::<$n, $h>($skip, $class);
+        }
+    };
+}
+
+s1_proof!(s1_taiko_hist_n0_h1, 0, 1, 7);
+s1_proof!(s1_taiko_hist_n3_h1, 3, 1, 8);
+s1_proof!(s1_taiko_hist_n4_h1, 4, 1, 9);
+s1_proof!(s1_taiko_hist_n3_h2, 3, 2, 8);
+s1_proof!(s1_taiko_hist_n4_h2, 4, 2, 9);
+
+s1_proof!(kf_taiko_nth_beyond_end, 3, 1, 8, 0, 1);
+s1_proof!(kf_taiko_short_map_n1, 1, 1, 7, SKIP_NTH_BEYOND, 2);
+s1_proof!(kf_taiko_short_map_n2, 2, 1, 7, SKIP_NTH_BEYOND, 2);
+s1_proof!(kf_taiko_nonhit_head_n3, 3, 2, 8, SKIP_NTH_BEYOND, 3);
+
+verif_replay_table!(verif_replay_taiko_gradual;
+    kf_taiko_nth_beyond_end, kf_taiko_short_map_n1, kf_taiko_short_map_n2, kf_taiko_nonhit_head_n3,
+    s1_taiko_hist_n0_h1, s1_taiko_hist_n3_h1, s1_taiko_hist_n4_h1, s1_taiko_hist_n3_h2, s1_taiko_hist_n4_h2,
+);
